@@ -242,6 +242,30 @@ Theorem C03_delegate_sound : forall A (p : sprog A) body a s', local_prog p -> (
 Proof. exact delegate_sound. Qed.
 Print Assumptions C03_delegate_sound.
 
+(* the same in the form the decoders use it: reader path = program on a private reader over the body (AccError consulted or not),
+   SR path = program on the caller's reader + AccError; mfhd_prog_r/sr, tfdt_prog_r/sr (written twice in Go) and tfhd_prog are
+   local programs tied to DecodeMfhd/SR, DecodeTfdt/SR, DecodeTfhd/SR by the P lines of the correspondence *)
+Theorem C03_prog_pair_agree : forall A (p : sprog A) (consult : bool) body a s', local_prog p -> (zlen body < 4611686018427387904)%Z ->
+  run_sprog p (rnew body) = Ok (a, s') -> rerr s' = false ->
+  forall pre post, (zlen (pre ++ body ++ post) < two63)%Z ->
+    prog_body_r consult p body = Ok a /\
+    prog_sr p (mkR (pre ++ body ++ post) (zlen pre) false) = Ok (a, mkR (pre ++ body ++ post) (zlen pre + rpos s')%Z false).
+Proof. exact prog_pair_agree. Qed.
+Print Assumptions C03_prog_pair_agree.
+
+Theorem C03_fragment_progs_local : local_prog mfhd_prog_sr /\ mfhd_prog_r = mfhd_prog_sr /\ local_prog tfdt_prog_sr /\
+  tfdt_prog_r = tfdt_prog_sr /\ local_prog tfhd_prog.
+Proof. exact (conj mfhd_local (conj eq_refl (conj tfdt_local (conj eq_refl tfhd_local)))). Qed.
+Print Assumptions C03_fragment_progs_local.
+
+(* mfhd: DecodeMfhd and DecodeMfhdSR agree on every body of at least 8 bytes (on a shorter one DecodeMfhd returns zeros - it does not
+   consult its reader's error - and DecodeMfhdSR fails or reads on; never reproduced) *)
+Theorem C03_mfhd_pair_agree : forall body pre post, (8 <= zlen body < 4611686018427387904)%Z -> (zlen (pre ++ body ++ post) < two63)%Z ->
+  exists a, prog_body_r false mfhd_prog_r body = Ok a /\
+            prog_sr mfhd_prog_sr (mkR (pre ++ body ++ post) (zlen pre) false) = Ok (a, mkR (pre ++ body ++ post) (zlen pre + 8)%Z false).
+Proof. exact mfhd_pair_agree. Qed.
+Print Assumptions C03_mfhd_pair_agree.
+
 (* the two dispatch tables register the same box types (regenerated from /repo on every run) *)
 Theorem C03_registry : keys_decoders = keys_decoders_sr.
 Proof. exact registry_equal. Qed.
@@ -361,3 +385,11 @@ Proof. vm_compute. reflexivity. Qed.
 Example ex_nonlocal : run_sprog (SOp RRemaining (fun v => SRet v)) (rnew [1;2]%N) = Ok (VBytes [1;2]%N, mkR [1;2]%N 2 false)
   /\ run_sprog (SOp RRemaining (fun v => SRet v)) (mkR [9;1;2;7]%N 1 false) = Ok (VBytes [1;2;7]%N, mkR [9;1;2;7]%N 4 false).
 Proof. split; vm_compute; reflexivity. Qed.
+
+(* tfhd with base-data-offset, default duration and default flags; tfdt version 1: the private runs end without error *)
+Example ex_tfhd_run : run_sprog tfhd_prog (rnew [0;0;0;41; 0;0;0;1; 0;0;0;0;0;0;1;0; 0;0;4;0; 1;1;0;0]%N)
+  = Ok ([0; 41; 1; 256; 0; 1024; 0; 16842752]%N, mkR [0;0;0;41; 0;0;0;1; 0;0;0;0;0;0;1;0; 0;0;4;0; 1;1;0;0]%N 24 false).
+Proof. vm_compute. reflexivity. Qed.
+Example ex_tfdt_run : run_sprog tfdt_prog_sr (rnew [1;0;0;0; 0;0;0;1;0;0;0;0]%N)
+  = Ok ([1; 0; 4294967296]%N, mkR [1;0;0;0; 0;0;0;1;0;0;0;0]%N 12 false).
+Proof. vm_compute. reflexivity. Qed.
